@@ -127,14 +127,18 @@ func (t *mixedTable) next(k Value) (next Value, v Value, ok bool) {
 		i, isInt = ToIntNoString(k)
 	}
 	if isInt {
-		j, v, ok := t.array.next(i)
-		if ok {
-			if j > 0 {
-				return IntValue(j), v, true
+		// The key 0 itself is never in the array part (only a nil key stands
+		// for position 0), so it must be looked up in the hash part.
+		if i != 0 || k.IsNil() {
+			j, v, ok := t.array.next(i)
+			if ok {
+				if j > 0 {
+					return IntValue(j), v, true
+				}
+				// In this case we have run out of values in the array, so start the
+				// hash table.
+				return t.hashTable.next(NilValue)
 			}
-			// In this case we have run out of values in the array, so start the
-			// hash table.
-			return t.hashTable.next(NilValue)
 		}
 		k = IntValue(i)
 	}
